@@ -588,6 +588,24 @@ def rule_iter(rep, d):
     c12.rule_step(_Rename(rep, "C11.iter"), d, classes)
 
 
+def rule_iter_inst(rep, tier):
+    """forward, const and reverse iteration of all four containers must at least instantiate: a traits class that only works for class-type iterators leaves
+    the array variants (whose storage iterators are raw pointers) without any usable iterator"""
+    from ..witness import WitnessTU
+    w = WitnessTU('#include "xtl/xoptional_sequence.hpp"\n#include "xtl/xcomplex_sequence.hpp"\nnamespace w {\n')
+    k = 0
+    for C in ("xtl::xoptional_vector<double>", "xtl::xoptional_array<double, 3>", "xtl::xcomplex_vector<double>", "xtl::xcomplex_array<double, 3>",
+              "xtl::xcomplex_vector<float, true>", "xtl::xcomplex_array<float, 2, true>"):
+        for what, body in (("forward", "for (auto it = c.begin(); it != c.end(); ++it) { auto v = *it; (void)v; } auto d = c.end() - c.begin(); (void)d; auto e = c.begin()[1]; (void)e;"),
+                           ("const", "for (auto it = c.cbegin(); it != c.cend(); it++) { auto v = *it; (void)v; } const auto& cc = c; for (auto it = cc.begin(); it != cc.end(); ++it) { } (void)(cc.begin() < cc.end());"),
+                           ("reverse", "for (auto it = c.rbegin(); it != c.rend(); ++it) { auto v = *it; (void)v; } for (auto it = c.crbegin(); it != c.crend(); ++it) { }")):
+            k += 1
+            w.must_compile("inline void f%d(%s& c) { %s }" % (k, C, body), "C11.iter", C.replace("xtl::", ""), "%s iteration instantiates" % what, what)
+    w.raw("}")
+    for comp, std in ([("clang++", "gnu++17"), ("g++", "gnu++14")] if tier == "quick" else [("clang++", "gnu++14"), ("clang++", "gnu++20"), ("g++", "gnu++14"), ("g++", "gnu++17")]):
+        w.run(rep, std=std, compiler=comp)
+
+
 def rule_flags(rep):
     """the flag storage of xoptional_vector is xdynamic_bitset<std::size_t>: its resize must keep the block buffer, the size and the unused bits in
     step, otherwise flags of elements created by a later resize come back present (decided by C03's rules on that instantiation)"""
@@ -615,7 +633,8 @@ def rule_flags(rep):
     tmp2 = Report("C11", rep.tier, rep.level, "")
     c03.rule_helpers(tmp2, inst, "C11.flags")
     for i in tmp2.instances:
-        if i["function"].startswith("xbitset_reference"):
+        # ... and the index / block-count helpers every flag access and resize goes through (a block too many is filled with the requested flag and never cleared)
+        if i["function"].startswith(("xbitset_reference", "compute_block_count", "count_extra_bits", "zero_unused_bits", "block_index", "bit_index", "bit_mask")):
             rep.instances.append(i)
     # == of two containers compares the flag storages with the bitset's ==: every block must take part
     tmp3 = Report("C11", rep.tier, rep.level, "")
@@ -659,6 +678,7 @@ def run(tier):
     rule_pairing(rep, d)
     rule_eq(rep, d)
     rule_iter(rep, d)
+    rule_iter_inst(rep, tier)
     rule_default_ctor(rep, d)
     rule_init(rep)
     rule_make(rep)
